@@ -2,6 +2,7 @@
 // Included by exactly one translation unit per container (box_<name>.cpp).
 #pragma once
 #include "box.hpp"
+#include "sched.hpp"
 
 #include <atomic>
 #include <chrono>
@@ -172,6 +173,19 @@ struct BoxT final : Box
             c = std::make_unique<C>((size_t)cfg.capacity, (float)cfg.mlf);
     }
 
+    // Runs f() (one call into the container, arguments already built) with the thread marked as
+    // "inside a library call", which is what the scheduler's lock-discipline calibration keys on.
+    template<typename F>
+    static auto in_call(F&& f)
+    {
+        struct Scope
+        {
+            Scope() { sched::call_enter(); }
+            ~Scope() { sched::call_leave(); }
+        } scope;
+        return f();
+    }
+
     static cappuccino::allow al(int a) { return (cappuccino::allow)(uint64_t)a; }
     static cappuccino::peek  pk(bool p) { return p ? cappuccino::peek::yes : cappuccino::peek::no; }
 
@@ -179,12 +193,17 @@ struct BoxT final : Box
     {
         (void)ttl_ms;
         (void)val;
-        if constexpr (kIsTlru)
-            return c->insert(ms{ttl_ms}, KC::enc(key), VC::enc(val), al(allow));
-        else if constexpr (kIsSet)
-            return c->insert(KC::enc(key), al(allow));
+        auto k = KC::enc(key);
+        if constexpr (kIsSet)
+            return in_call([&] { return c->insert(k, al(allow)); });
         else
-            return c->insert(KC::enc(key), VC::enc(val), al(allow));
+        {
+            auto v = VC::enc(val);
+            if constexpr (kIsTlru)
+                return in_call([&] { return c->insert(ms{ttl_ms}, k, std::move(v), al(allow)); });
+            else
+                return in_call([&] { return c->insert(k, std::move(v), al(allow)); });
+        }
     }
 
     size_t insert_range(const std::vector<Item>& items, int allow, int form) override
@@ -196,12 +215,12 @@ struct BoxT final : Box
                 std::list<std::tuple<ms, K, V>> r;
                 for (auto& it : items)
                     r.emplace_back(ms{it.ttl_ms}, KC::enc(it.key), VC::enc(it.val));
-                return c->insert_range(r, al(allow));
+                return in_call([&] { return c->insert_range(r, al(allow)); });
             }
             std::vector<std::tuple<ms, K, V>> r;
             for (auto& it : items)
                 r.emplace_back(ms{it.ttl_ms}, KC::enc(it.key), VC::enc(it.val));
-            return c->insert_range(std::move(r), al(allow));
+            return in_call([&] { return c->insert_range(std::move(r), al(allow)); });
         }
         else if constexpr (kIsSet)
         {
@@ -210,19 +229,19 @@ struct BoxT final : Box
                 std::set<K> r;
                 for (auto& it : items)
                     r.insert(KC::enc(it.key));
-                return c->insert_range(r, al(allow));
+                return in_call([&] { return c->insert_range(r, al(allow)); });
             }
             if (form == 1)
             {
                 std::list<K> r;
                 for (auto& it : items)
                     r.push_back(KC::enc(it.key));
-                return c->insert_range(r, al(allow));
+                return in_call([&] { return c->insert_range(r, al(allow)); });
             }
             std::vector<K> r;
             for (auto& it : items)
                 r.push_back(KC::enc(it.key));
-            return c->insert_range(std::move(r), al(allow));
+            return in_call([&] { return c->insert_range(std::move(r), al(allow)); });
         }
         else
         {
@@ -231,14 +250,14 @@ struct BoxT final : Box
                 std::map<K, V> r;
                 for (auto& it : items)
                     r.emplace(KC::enc(it.key), VC::enc(it.val));
-                return c->insert_range(r, al(allow));
+                return in_call([&] { return c->insert_range(r, al(allow)); });
             }
             if (form == 1)
             {
                 std::list<std::pair<K, V>> r;
                 for (auto& it : items)
                     r.emplace_back(KC::enc(it.key), VC::enc(it.val));
-                return c->insert_range(r, al(allow));
+                return in_call([&] { return c->insert_range(r, al(allow)); });
             }
             std::vector<std::pair<K, V>> r;
             for (auto& it : items)
@@ -246,13 +265,17 @@ struct BoxT final : Box
             if constexpr (kIsFifo)
             {
                 if (form == 3)
-                    return c->insert(r.begin(), r.end(), al(allow));
+                    return in_call([&] { return c->insert(r.begin(), r.end(), al(allow)); });
             }
-            return c->insert_range(std::move(r), al(allow));
+            return in_call([&] { return c->insert_range(std::move(r), al(allow)); });
         }
     }
 
-    bool erase(int key) override { return c->erase(KC::enc(key)); }
+    bool erase(int key) override
+    {
+        auto k = KC::enc(key);
+        return in_call([&] { return c->erase(k); });
+    }
 
     size_t erase_range(const std::vector<Item>& keys, int form) override
     {
@@ -261,7 +284,7 @@ struct BoxT final : Box
             std::set<K> r;
             for (auto& it : keys)
                 r.insert(KC::enc(it.key));
-            return c->erase_range(r);
+            return in_call([&] { return c->erase_range(r); });
         }
         std::vector<K> r;
         for (auto& it : keys)
@@ -269,9 +292,9 @@ struct BoxT final : Box
         if constexpr (kIsFifo)
         {
             if (form == 3)
-                return c->erase(r.begin(), r.end());
+                return in_call([&] { return c->erase(r.begin(), r.end()); });
         }
-        return c->erase_range(r);
+        return in_call([&] { return c->erase_range(r); });
     }
 
     template<typename O>
@@ -296,12 +319,13 @@ struct BoxT final : Box
     Found find(int key, bool peek) override
     {
         (void)peek;
+        auto k = KC::enc(key);
         if constexpr (kEnumPeek)
-            return dec_opt(c->find(KC::enc(key), pk(peek)));
+            return dec_opt(in_call([&] { return c->find(k, pk(peek)); }));
         else if constexpr (kBoolPeek)
-            return dec_opt(c->find(KC::enc(key), peek));
+            return dec_opt(in_call([&] { return c->find(k, peek); }));
         else
-            return dec_opt(c->find(KC::enc(key)));
+            return dec_opt(in_call([&] { return c->find(k); }));
     }
 
     template<typename R>
@@ -309,22 +333,22 @@ struct BoxT final : Box
     {
         (void)peek;
         if constexpr (kEnumPeek)
-            return c->find_range(r, pk(peek));
+            return in_call([&] { return c->find_range(r, pk(peek)); });
         else if constexpr (kBoolPeek)
-            return c->find_range(r, peek);
+            return in_call([&] { return c->find_range(r, peek); });
         else
-            return c->find_range(r);
+            return in_call([&] { return c->find_range(r); });
     }
     template<typename R>
     void call_find_fill(R& r, bool peek)
     {
         (void)peek;
         if constexpr (kEnumPeek)
-            c->find_range_fill(r, pk(peek));
+            in_call([&] { c->find_range_fill(r, pk(peek)); return 0; });
         else if constexpr (kBoolPeek)
-            c->find_range_fill(r, peek);
+            in_call([&] { c->find_range_fill(r, peek); return 0; });
         else
-            c->find_range_fill(r);
+            in_call([&] { c->find_range_fill(r); return 0; });
     }
     template<typename Out>
     static void encode_pairs(const Out& out, Result& res)
@@ -355,12 +379,12 @@ struct BoxT final : Box
         {
             if (form == 3)
             {
-                encode_pairs(c->find(r.begin(), r.end(), r.size()), res);
+                encode_pairs(in_call([&] { return c->find(r.begin(), r.end(), r.size()); }), res);
                 return;
             }
             if (form == 4)
             {
-                encode_pairs(c->find(r.begin(), r.end()), res);
+                encode_pairs(in_call([&] { return c->find(r.begin(), r.end()); }), res);
                 return;
             }
         }
@@ -412,7 +436,7 @@ struct BoxT final : Box
         {
             if (form == 3)
             {
-                c->find_range_fill(r.begin(), r.end());
+                in_call([&] { c->find_range_fill(r.begin(), r.end()); return 0; });
                 encode_pairs(r, res);
                 return;
             }
@@ -428,7 +452,8 @@ struct BoxT final : Box
         Found f;
         if constexpr (kBoolPeek)
         {
-            auto o = c->find_with_use_count(KC::enc(key), peek);
+            auto k = KC::enc(key);
+            auto o = in_call([&] { return c->find_with_use_count(k, peek); });
             if (o.has_value())
             {
                 f.hit   = true;
@@ -442,36 +467,36 @@ struct BoxT final : Box
     size_t age() override
     {
         if constexpr (TAG == Cont::lfuda)
-            return c->dynamically_age();
+            return in_call([&] { return c->dynamically_age(); });
         else
             return 0;
     }
     size_t clean() override
     {
         if constexpr (TAG == Cont::tlru || TAG == Cont::utlru || TAG == Cont::ut_map || TAG == Cont::ut_set)
-            return c->clean_expired_values();
+            return in_call([&] { return c->clean_expired_values(); });
         else
             return 0;
     }
     void clear() override
     {
         if constexpr (TAG == Cont::utlru || TAG == Cont::ut_map)
-            c->clear();
+            in_call([&] { c->clear(); return 0; });
     }
     void update_ttl(int64_t v) override
     {
         (void)v;
         if constexpr (TAG == Cont::utlru)
-            c->update_ttl(ms{v});
+            in_call([&] { c->update_ttl(ms{v}); return 0; });
     }
-    size_t size() override { return c->size(); }
-    bool   empty() override { return c->empty(); }
+    size_t size() override { return in_call([&] { return c->size(); }); }
+    bool   empty() override { return in_call([&] { return c->empty(); }); }
     size_t capacity() override
     {
         if constexpr (TAG == Cont::ut_map || TAG == Cont::ut_set)
             return 0;
         else
-            return c->capacity();
+            return in_call([&] { return c->capacity(); });
     }
     const void* obj_addr() const override { return c.get(); }
     size_t      obj_size() const override { return sizeof(C); }
